@@ -342,6 +342,67 @@ def sg_blinding_case(env, case, st):
         st.count("WARNING-few-offsets")
 
 
+# ------------------------------------------------------------------ call-pair histories on input variants
+def _one_op(L, ctx, op):
+    o = buf(CAP)
+    ol = c_size_t(0)
+    L.verif_battery_op(ctx, op, o, CAP, byref(ol))
+    return o.raw[:ol.value]
+
+
+def pair_setup(cfg):
+    L = lib(cfg)
+    assert L.verif_shared_prepare(L.ctx) == 1, "input variants could not be prepared"
+    refs = {}
+    for v in (1, 0):
+        L.verif_shared_use(v)
+        c = L.context_create(1)
+        refs[v] = [_one_op(L, c, op) for op in range(L.verif_battery_n_ops())]
+        L.context_destroy(c)
+    return L, refs
+
+
+def pair_case(env, case, st):
+    """op_i on input variant a, then op_j on variant b (same objects, same addresses, other values) on one context:
+    the second call's observables must equal those of op_j(b) on a fresh context with no prior call"""
+    L, refs = env
+    i, j, a, b, shared_ctx = case
+    L.cb_reset()
+    live0 = L.live_allocs
+    c = L.ctx if shared_ctx else L.context_create(1)
+    L.verif_shared_use(a)
+    first = _one_op(L, c, i)
+    L.verif_shared_use(b)
+    second = _one_op(L, c, j)
+    st.calls += 2
+    if first != refs[a][i]:
+        st.fail("battery op %d (input variant %d) differs from the same call on a fresh context (earlier calls in this process changed it)" % (i, a),
+                {"cfg": L.config, "ops": [i], "variants": [a]})
+    if second != refs[b][j]:
+        st.fail("battery op %d on input variant %d gives a different result when it follows op %d on variant %d (same objects and addresses, other values): results depend on an earlier call" % (j, b, i, a),
+                {"cfg": L.config, "ops": [i, j], "variants": [a, b], "long_lived_context": bool(shared_ctx)})
+    if L.illegal or L.errors:
+        st.fail("callback fired during call pair (%d,%d)" % (i, j), {"cfg": L.config, "ops": [i, j]})
+        L.cb_reset()
+    if not shared_ctx:
+        L.context_destroy(c)
+    if L.live_allocs != live0:
+        st.fail("allocation ledger: %d allocation(s) still live after call pair (%d,%d)" % (L.live_allocs - live0, i, j), {"cfg": L.config, "ops": [i, j]})
+    L.verif_shared_use(0)
+    st.nt((i, j, a, b))
+    st.count("pair-v%d-v%d" % (a, b))
+    if i == 3 and j == 4:
+        st.sample({"first": {"op": i, "variant": a}, "second": {"op": j, "variant": b}, "second_result": hx(second[:24]) + ".."})
+
+
+def pair_phase(run, cfg, thorough):
+    L = lib(cfg)
+    n = L.verif_battery_n_ops()
+    cases = [(i, j, a, b, sc) for sc in ((0, 1) if thorough else (0,)) for (a, b) in ((1, 0), (0, 1), (0, 0)) for i in range(n) for j in range(n)]
+    run_phase(run, "%s/call-pair-histories" % cfg, pair_case, cases, setup=lambda c=cfg: pair_setup(c),
+              rule="ALL ordered pairs (op_i, op_j) of the %d battery ops x input-variant patterns (1,0), (0,1), (0,0): the two calls use the SAME argument objects at the SAME addresses holding different (or equal) values, on one context%s; the second call must be byte-identical to that call on a fresh context with no history (differential oracle), no callback, balanced allocation ledger" % (n, " (thorough: also on one long-lived context per worker)" if thorough else ""))
+
+
 # ------------------------------------------------------------------ writable globals
 def globals_check(run, cfg):
     """compile the library translation units ALONE (no harness code, non-PIC so const data lands in .rodata) and
@@ -401,6 +462,8 @@ def main():
                   rule="every battery op on secp256k1_context_static and on a byte-copy with installed callbacks: documented-static ops must give the full-context result with 0 callbacks, the others either the same result or an illegal-argument callback; context management on the static context is refused; destroy(NULL); failing allocator => error callback")
         if run.out_of_time():
             run.cov["exhaustive"] = False
+    for cfg in cfgs[:2 if thorough else 1]:
+        pair_phase(run, cfg, thorough)
     globals_check(run, "prod-fast")
     for cfg in sgs:
         run_phase(run, "%s/blinding-invariant" % cfg, sg_blinding_case, [0], setup=lambda c=cfg: Lib(c), nproc=1,
